@@ -250,7 +250,13 @@ def main_run(prop: Prop, ctx: Ctx) -> int:
     # 1. translator tie: regenerate model data from the current source
     try:
         with LeanLock():
-            gen = prop.regenerate(ctx)
+            gen = list(prop.regenerate(ctx) or [])
+            # every model that sorts operands (Model/Order.lean, linked into all drivers) follows the terminal comparators
+            # of the tree under test: regenerate that choice for every property, not only for the ones that state it
+            from translate import ordervariant
+            og = ordervariant.regenerate()
+            if any(m == "UflVerif.Gen.OrderVariant" for m in lean_deps(prop.lean_modules)):
+                gen += og
             # 2. kernel re-checks every theorem against the regenerated data
             ok, log = lake_build(prop.lean_modules)
             if not ok:
